@@ -33,6 +33,7 @@ import (
 	"time"
 
 	api "github.com/LindsayBradford/crem/cmd/cremengine/engine/api"
+	"github.com/LindsayBradford/crem/internal/pkg/server"
 	"github.com/LindsayBradford/crem/pkg/logging/loggers"
 	"github.com/LindsayBradford/crem/pkg/threading"
 )
@@ -768,10 +769,59 @@ func c16ViaServer(base string, alias *sync.Map) c16Doer {
 
 // ---- driver ----
 
+// c16CrossMux: the status handler is registered on the API multiplexer AND on the admin multiplexer
+// (RestServer.WithApiMux), i.e. it runs under two different request locks.  The responses carry only a status word and a
+// timestamp, so nothing but the race detector can observe the unsynchronised access: this mode is run by the -race
+// variant of the thorough tier only.
+func c16CrossMux() {
+	ch := threading.GetMainThreadChannel()
+	apiMux := new(api.Mux).Initialise().WithMainThreadChannel(&ch)
+	rs := new(server.RestServer).Initialise().WithApiMux(apiMux).WithLogger(loggers.NewNullLogger())
+	adminMux := rs.VerifC16AdminMux()
+	emit(J{"kind": "begin", "trial": 0, "mode": "cross-mux-status", "requests": []J{
+		{"method": "GET", "path": "/", "port": "api"}, {"method": "GET", "path": "/status", "port": "admin"}}})
+	c16Flush()
+	bad := int64(0)
+	var wg sync.WaitGroup
+	start := make(chan struct{})
+	const pairs = 300
+	for k := 0; k < pairs; k++ {
+		wg.Add(2)
+		go func() {
+			defer wg.Done()
+			<-start
+			w := httptest.NewRecorder()
+			apiMux.ServeHTTP(w, httptest.NewRequest("GET", "http://engine/", nil))
+			if w.Code != 200 {
+				atomic.AddInt64(&bad, 1)
+			}
+		}()
+		go func() {
+			defer wg.Done()
+			<-start
+			w := httptest.NewRecorder()
+			adminMux.ServeHTTP(w, httptest.NewRequest("GET", "http://engine/status", nil))
+			if w.Code != 200 {
+				atomic.AddInt64(&bad, 1)
+			}
+		}()
+	}
+	close(start)
+	wg.Wait()
+	if bad != 0 {
+		emit(J{"kind": "oracle", "what": "status request answered with an error under concurrent use of both ports", "probe": "cross-mux-status", "count": bad})
+	}
+	emit(J{"kind": "stat", "stats": map[string]int{"cross_mux_status_pairs": pairs}})
+}
+
 func runC16(args []string) {
 	tier := "quick"
 	if len(args) > 0 {
 		tier = args[0]
+	}
+	if tier == "crossmux" {
+		c16CrossMux()
+		return
 	}
 	if err := os.Chdir(c16ApiDir); err != nil {
 		panic("C16: cannot chdir to " + c16ApiDir + " (run from the repository root): " + err.Error())
